@@ -65,6 +65,9 @@ def judge(case):
             if not exact and (base is None):
                 continue
             ts = traces.Setup(tcase)
+            # the twin is modelled by the SAME Pervaporation / membrane / curve-set objects as the base run (only the Conditions differ):
+            # whatever an object remembers from the base run must not leak into the scaled run
+            ts.pv, ts.membrane, ts.curve_set = setup.pv, setup.membrane, setup.curve_set
             st2, pm2 = ts.run()
             if (st2 == "ok") != (base is not None):
                 if exact:
